@@ -15,6 +15,9 @@ import z3
 from . import smt
 from .sym import BoolSym, Sym, Unsupported, as_bool
 
+import os as _os
+_REPO = _os.path.realpath(_os.environ.get("SVX_REPO", "/repo")) + "/"
+
 
 class State:
     def __init__(self):
@@ -164,8 +167,10 @@ def _raised_by_real_code(e) -> bool:
     if not frames:
         return False
     inner = frames[-1].filename
-    in_repo = any(f.filename.startswith("/repo/") for f in frames)
-    if inner.startswith("/repo/"):
+    in_repo = any(f.filename.startswith(_REPO) for f in frames)
+    if isinstance(e, (TypeError, AttributeError, NameError, NotImplementedError)):
+        return False  # far more likely a gap of the symbolic operand types than behaviour of the code
+    if inner.startswith(_REPO):
         return True
     if in_repo and isinstance(e, (ValueError, IndexError, KeyError, ZeroDivisionError)) and (
             inner.endswith("svx/field.py") or inner.endswith("svx/kernel.py") or inner.endswith("svx/symnp.py")):
